@@ -194,11 +194,21 @@ namespace cds { namespace intrusive {
             friend class MichaelList;
             value_type * m_pNode;
 
+            // Checks if the current node is logically deleted: marked but not unlinked yet
+            bool is_deleted() const
+            {
+                return node_traits::to_node_ptr( *m_pNode )->m_pNext.load( memory_model::memory_order_acquire ).bits() != 0;
+            }
+
             void next()
             {
-                if ( m_pNode ) {
+                while ( m_pNode ) {
                     node_type * p = node_traits::to_node_ptr( *m_pNode )->m_pNext.load(memory_model::memory_order_relaxed).ptr();
                     m_pNode = p ? node_traits::to_value_ptr( p ) : nullptr;
+
+                    // A logically deleted node can stay linked until the next search passes by - skip it
+                    if ( !m_pNode || !is_deleted())
+                        break;
                 }
             }
 
@@ -214,6 +224,8 @@ namespace cds { namespace intrusive {
             {
                 node_type * pNode = refNode.load(memory_model::memory_order_relaxed).ptr();
                 m_pNode = pNode ? node_traits::to_value_ptr( *pNode ) : nullptr;
+                if ( m_pNode && is_deleted())
+                    next();
             }
 
         public:
@@ -788,7 +800,9 @@ namespace cds { namespace intrusive {
         /// Check if the list is empty
         bool empty() const
         {
-            return m_pHead.load( memory_model::memory_order_relaxed ).all() == nullptr;
+            // The list may contain logically deleted nodes that have not been unlinked yet
+            rcu_lock l;
+            return cbegin() == cend();
         }
 
         /// Returns list's item count
